@@ -40,7 +40,8 @@ def thorough_selftest(pid, rep, source_hash=None):
             meta = json.load(open(os.path.join(d, "meta.json")))
         except (OSError, ValueError):
             continue
-        if meta.get("property") == pid and meta.get("confirmed", True):
+        # a seed recorded as open (meta.open: reported by another property's check only; see DESIGN.md) is not part of this check's self-validation
+        if meta.get("property") == pid and meta.get("confirmed", True) and not meta.get("open"):
             jobs.append(("seeded", os.path.join(d, "patch.diff"), None, os.path.basename(d)))
     for p in sorted(glob.glob(os.path.join(V, "mutants", "benign", "*.patch"))):
         jobs.append(("benign", p, None, os.path.basename(p)))
